@@ -9,6 +9,7 @@ C09 — the property as an executable specification.
     element    = OWS range *( OWS ";" OWS [ parameter ] ) OWS
     parameter  = name "=" ( token / quoted-string )
     weight     = the first parameter named "q" / "Q", its value a qvalue
+    OWS        = *( SP / HTAB )
 
 The meaning of a header (`denote`) is read off the syntax tree, not parsed from bytes. The selection
 rule of the property sentence is `select`: among the ranges with q ≠ 0 that accept some offer take
@@ -92,15 +93,10 @@ def mediaParams : List Param → List Param
 
 def weightOf (ps : List Param) : Option Param := ps.find? isWeight
 
-def distinctNames : List Bytes → Bool
-  | [] => true
-  | n :: ns => !ns.contains n && distinctNames ns
-
 def wfElem (e : Elem) : Bool :=
   isOWS e.lead && isOWS e.trail &&
   (if e.rng == [] then e.params == [] else isRange e.rng) &&
-  e.params.all wfParam &&
-  distinctNames ((mediaParams e.params).map (toLower ·.name))
+  e.params.all wfParam
 
 /-- the header is in the RFC grammar -/
 def wf (es : List Elem) : Bool := es.all wfElem
@@ -115,13 +111,19 @@ structure SRange where
   pos : Nat
   deriving Repr, DecidableEq
 
+/-- the media parameters of a range as a map from lower-cased names to values: the grammar does not
+    forbid a repeated name; then the name keeps its first place, takes its last value and counts once
+    (fiber documents this for `paramsMatch`, following Express' `res.format`) -/
+def paramMap (ps : List Param) : Params :=
+  ps.foldl (fun m p => mapInsert m (toLower p.name) p.value) []
+
 def denoteElem (e : Elem) (pos : Nat) : Option SRange :=
   if e.rng == [] then none else
   let q := match weightOf e.params with
     | some w => (qvalue? w.value).getD .one
     | none => .one
   if q.isZero then none
-  else some { spec := e.rng, q := q, params := (mediaParams e.params).map fun p => (toLower p.name, p.value), pos := pos }
+  else some { spec := e.rng, q := q, params := paramMap (mediaParams e.params), pos := pos }
 
 def denoteFrom : List Elem → Nat → List SRange
   | [], _ => []
@@ -186,27 +188,6 @@ def accMedia (mime : Bytes → Bytes) (r : SRange) (offer : Bytes) : Bool :=
     range (`en-US` accepts the offer `en`) -/
 def accToken (r : SRange) (offer : Bytes) : Bool :=
   r.spec.getLast? == some 42 || hasPrefix r.spec offer
-
-/-! ### known findings (regions of headers on which the unchanged tree departs from the rule) -/
-
-namespace Known
-/-- K1: HTAB used as optional whitespace (fiber trims only SP; so does fasthttp's parameter scanner) -/
-def K1 (es : List Elem) : Bool :=
-  es.any fun e => e.lead.contains 9 || e.trail.contains 9 || e.params.any fun p => p.ows1.contains 9 || p.ows2.contains 9
-
-/-- the parameters that matter: up to and including the weight -/
-def significant : List Param → List Param
-  | [] => []
-  | p :: ps => if isWeight p then [p] else p :: significant ps
-
-def emptyBeforeNonEmpty : List Param → Bool
-  | [] => false
-  | p :: ps => (p.name == [] && ps.any (·.name != [])) || emptyBeforeNonEmpty ps
-
-/-- K2: an empty parameter (`;;`) precedes a parameter that matters (fasthttp.VisitHeaderParams
-    stops at the empty one) -/
-def K2 (es : List Elem) : Bool := es.any fun e => emptyBeforeNonEmpty (significant e.params)
-end Known
 
 /-! ### the oracle evaluated on an observation -/
 
